@@ -1533,6 +1533,8 @@ class quantized_bits(base_quantizer.BaseQuantizer):  # pylint: disable=invalid-n
         "qnoise_factor":
             self.qnoise_factor.numpy() if isinstance(
                 self.qnoise_factor, tf.Variable) else self.qnoise_factor,
+        "use_ste":
+            self.use_ste,
         "elements_per_scale":
             self.elements_per_scale,
         "min_po2_exponent":
@@ -2504,7 +2506,9 @@ class quantized_relu(base_quantizer.BaseQuantizer):  # pylint: disable=invalid-n
             self.is_quantized_clip,
         "qnoise_factor":
             self.qnoise_factor.numpy() if isinstance(
-                self.qnoise_factor, tf.Variable) else self.qnoise_factor
+                self.qnoise_factor, tf.Variable) else self.qnoise_factor,
+        "use_ste":
+            self.use_ste
     }
     return config
 
@@ -2973,6 +2977,8 @@ class quantized_po2(base_quantizer.BaseQuantizer):  # pylint: disable=invalid-na
         "qnoise_factor":
             self.qnoise_factor.numpy() if isinstance(
                 self.qnoise_factor, tf.Variable) else self.qnoise_factor,
+        "use_ste":
+            self.use_ste,
         "log2_rounding":
             self.log2_rounding
     }
@@ -3147,6 +3153,8 @@ class quantized_relu_po2(base_quantizer.BaseQuantizer):  # pylint: disable=inval
         "qnoise_factor":
             self.qnoise_factor.numpy() if isinstance(
                 self.qnoise_factor, tf.Variable) else self.qnoise_factor,
+        "use_ste":
+            self.use_ste,
         "log2_rounding":
             self.log2_rounding
     }
@@ -3303,8 +3311,8 @@ class quantized_hswish(quantized_bits):  # pylint: disable=invalid-name
 
     base_config = super(quantized_hswish, self).get_config()
     # quantized_hswish.__init__ does not take these quantized_bits arguments.
-    for key in ("keep_negative", "post_training_scale", "elements_per_scale",
-                "min_po2_exponent", "max_po2_exponent"):
+    for key in ("keep_negative", "post_training_scale", "use_ste",
+                "elements_per_scale", "min_po2_exponent", "max_po2_exponent"):
       base_config.pop(key, None)
 
     config = {
